@@ -517,6 +517,12 @@ func witnesses() []scenario {
 			{K: "sched"}, {K: "advhold", D: sec}, {K: "cancel"}, {K: "sched"}, {K: "release"}, {K: "adv", D: sec}, {K: "reply"}, {K: "adv", D: 2 * sec}}},
 		{Name: "w-stale-timer-after-resetall-manager", Mode: "manager", Cfg: std, NAddr: 1, Ops: []op{
 			{K: "sched"}, {K: "advhold", D: sec}, {K: "resetall"}, {K: "sched"}, {K: "release"}, {K: "adv", D: sec}, {K: "reply"}, {K: "adv", D: 2 * sec}}},
+		{Name: "w-slow-failing-attempts", Mode: "reconnector", Cfg: std, NAddr: 1, Ops: []op{
+			// every attempt takes longer to fail than the delay that follows it: the delay counts from the failure
+			{K: "sched"}, {K: "adv", D: sec}, {K: "adv", D: 5 * sec}, {K: "reply"}, {K: "adv", D: 2*sec - 125}, {K: "adv", D: 125},
+			{K: "adv", D: 9 * sec}, {K: "reply"}, {K: "adv", D: 4*sec - 125}, {K: "adv", D: 125}, {K: "adv", D: 30 * sec}, {K: "reply"}, {K: "adv", D: 8 * sec}}},
+		{Name: "w-slow-failing-attempts-manager", Mode: "manager", Cfg: cfgT{Initial: sec, Max: 4 * sec, MulNum: 2, MulDen: 1, JitNum: 1, JitDen: 4}, NAddr: 1, Offset: 250, Ops: []op{
+			{K: "sched"}, {K: "adv", D: sec}, {K: "adv", D: 7 * sec}, {K: "reply"}, {K: "adv", D: 3 * sec}, {K: "adv", D: 20 * sec}, {K: "reply"}, {K: "adv", D: 5 * sec}}},
 		{Name: "w-sleep-with-no-peer-connected", Mode: "manager", Cfg: std, NAddr: 1, Ops: []op{
 			{K: "sched"}, {K: "pause"}, {K: "adv", D: sec}, {K: "adv", D: 2 * sec}, {K: "resume"}, {K: "sched"}, {K: "adv", D: sec}}},
 		{Name: "w-agent-settings-no-jitter", Mode: "agent", Cfg: std, NAddr: 1, Ops: []op{
